@@ -157,6 +157,17 @@ CLAIMED = {
     note='openpyxl\'s read-only row stream is an oracle with a stated contract (validated by the correspondence). time/timedelta cells not generated. '
          'No known findings.',
     technique='Coq proof (list/seq lemmas; induction over strings for repr) + vm_compute correspondence on real files', ref='6/C18'),
+ 'C02': dict(
+    text='Unbounded Coq theorems: column letters <-> numbers is a bijection in both directions (for every column >= 1 and every non-empty '
+         'capital-letter string; induction over the string and over fuel); a rectangular reference resolves to exactly the rectangle\'s '
+         'coordinates in row-major order and a whole column to the used rows, for all coordinates (get_matrix as coded); coordinates are read '
+         'at their true position (reader theorem); an unknown sheet title is rejected with KeyError and a known one resolves to that sheet. '
+         'Kernel-exhaustive on the REGENERATED token regexes: prefix x $ markers x boundary columns/rows x following contexts lex to the right '
+         'token class and groups. Correspondence: references in every spelling and function position over 1-4 sheets, incl. the same formula text '
+         'on several sheets; the coordinates the translated code refers to compared with the model and the row-major spec.',
+    note='Lexing theorem is a bounded sweep. CellIdentifierRangeToken is unreachable. Known findings: whole_columns_delivered_column_by_column, '
+         'apostrophe_in_sheet_title.',
+    technique='Coq proof (induction, lia) + kernel sweep over regenerated regexes + vm_compute correspondence', ref='6/C02'),
 }
 
 ids = [json.loads(l)['id'] for l in open('/verif/properties.jsonl')]
